@@ -33,7 +33,117 @@ type row struct {
 	Cmp       []cmp
 	CloseRefs []string // close<Other> variables included in the disjunction
 	Reload    []string // fields reloaded in place when the component is not closed
+	ReloadVia []string // the methods that push them
 	Line      int
+	GExp      string   // Gallina term (gexpr): the condition under which createResources constructs the component
+	Atoms     []atom   // the atoms of GExp
+	Binds     []bind   // <Key>: currentConf.<Field> (or a conversion of it) in the constructor literal
+	RefBinds  []bind   // <Key>: p.<comp> in the constructor literal (Field = component)
+}
+
+type atom struct {
+	Field string
+	Test  string // "" = the (boolean or derived) field is true; otherwise the name of the constant it is compared with
+}
+
+type bind struct {
+	Key   string
+	Field string
+}
+
+// guardExpr translates the condition of a construction block (without its `p.x == nil` conjunct) into a gexpr.
+func guardExpr(e ast.Expr, r *row) string {
+	switch x := e.(type) {
+	case *ast.ParenExpr:
+		return guardExpr(x.X, r)
+	case *ast.UnaryExpr:
+		if x.Op == token.NOT {
+			return "(GNot " + guardExpr(x.X, r) + ")"
+		}
+	case *ast.BinaryExpr:
+		switch x.Op {
+		case token.LAND:
+			return "(GAnd " + guardExpr(x.X, r) + " " + guardExpr(x.Y, r) + ")"
+		case token.LOR:
+			return "(GOr " + guardExpr(x.X, r) + " " + guardExpr(x.Y, r) + ")"
+		case token.EQL, token.NEQ:
+			if id, ok := x.Y.(*ast.Ident); ok && id.Name == "nil" {
+				if sel, ok := x.X.(*ast.SelectorExpr); ok {
+					if rr, ok := sel.X.(*ast.Ident); ok && rr.Name == "p" && x.Op == token.EQL {
+						return "GTrue"
+					}
+				}
+			}
+			f, ok1 := selOf(x.X, "currentConf")
+			k, ok2 := x.Y.(*ast.SelectorExpr)
+			if ok1 && ok2 && !strings.Contains(f, "#") {
+				if pk, ok := k.X.(*ast.Ident); ok && pk.Name == "conf" {
+					r.Atoms = append(r.Atoms, atom{f, k.Sel.Name})
+					t := fmt.Sprintf("(GAtom %q %q)", f, k.Sel.Name)
+					if x.Op == token.NEQ {
+						t = "(GNot " + t + ")"
+					}
+					return t
+				}
+			}
+		}
+	case *ast.SelectorExpr, *ast.CallExpr:
+		if f, ok := selOf(x, "currentConf"); ok {
+			r.Atoms = append(r.Atoms, atom{f, ""})
+			return fmt.Sprintf("(GAtom %q \"\")", f)
+		}
+	}
+	failf("createResources: condition of the %s block outside the fragment", r.Comp)
+	return "GTrue"
+}
+
+// literalBinds collects, from the first &T{...} literal of a construction block, the keys bound directly to a
+// configuration field (possibly through a conversion pkg.T(currentConf.F)) and the keys bound to another component.
+func literalBinds(body *ast.BlockStmt, r *row) {
+	var lit *ast.CompositeLit
+	ast.Inspect(body, func(x ast.Node) bool {
+		if lit != nil {
+			return false
+		}
+		if u, ok := x.(*ast.UnaryExpr); ok && u.Op == token.AND {
+			if cl, ok := u.X.(*ast.CompositeLit); ok {
+				lit = cl
+				return false
+			}
+		}
+		return true
+	})
+	if lit == nil {
+		return
+	}
+	for _, el := range lit.Elts {
+		kv, ok := el.(*ast.KeyValueExpr)
+		if !ok {
+			continue
+		}
+		key, ok := kv.Key.(*ast.Ident)
+		if !ok {
+			continue
+		}
+		v := kv.Value
+		if call, ok := v.(*ast.CallExpr); ok && len(call.Args) == 1 { // conversion such as time.Duration(currentConf.F)
+			if fn, ok := call.Fun.(*ast.SelectorExpr); ok {
+				if pk, ok := fn.X.(*ast.Ident); ok && pk.Name != "currentConf" && pk.Name != "p" {
+					v = call.Args[0] // the driver only compares when the types are convertible
+				}
+			}
+		}
+		if sel, ok := v.(*ast.SelectorExpr); ok {
+			if rr, ok := sel.X.(*ast.Ident); ok {
+				switch rr.Name {
+				case "currentConf":
+					r.Binds = append(r.Binds, bind{key.Name, sel.Sel.Name})
+				case "p":
+					r.RefBinds = append(r.RefBinds, bind{key.Name, sel.Sel.Name})
+				}
+			}
+		}
+	}
 }
 
 var fails []string
@@ -203,6 +313,14 @@ func parseDisjunct(e ast.Expr, r *row) {
 	failf("closeResources: disjunct of %s outside the fragment", r.CloseVar)
 }
 
+func bindFields(bs []bind) []string {
+	var out []string
+	for _, b := range bs {
+		out = append(out, b.Field)
+	}
+	return uniq(out)
+}
+
 func main() {
 	repo, outPath, notesPath := os.Args[1], os.Args[2], os.Args[3]
 	fset := token.NewFileSet()
@@ -243,6 +361,8 @@ func main() {
 		r := &row{Comp: comp, Line: fset.Position(ifs.Pos()).Line}
 		r.Guard = uniq(confFields(ifs.Cond, "currentConf"))
 		r.Uses = uniq(confFields(ifs.Body, "currentConf"))
+		r.GExp = guardExpr(ifs.Cond, r)
+		literalBinds(ifs.Body, r)
 		for _, c := range coreFields(ifs.Body) {
 			if c != comp {
 				r.Refs = append(r.Refs, c)
@@ -266,6 +386,13 @@ func main() {
 			}
 		}
 		r.Refs = refs
+		var rb []bind
+		for _, b := range r.RefBinds {
+			if isComp[b.Field] {
+				rb = append(rb, b)
+			}
+		}
+		r.RefBinds = rb
 	}
 
 	// --- closeResources: close<Comp> := newConf == nil || …
@@ -274,6 +401,8 @@ func main() {
 	type reloadStmt struct {
 		closeVar string
 		fields   []string
+		comp     string // the component whose Reload… method is called
+		method   string
 	}
 	var reloads []reloadStmt
 	closeToComp := map[string]string{}
@@ -319,7 +448,45 @@ func main() {
 				continue
 			}
 			if negated {
-				reloads = append(reloads, reloadStmt{closeVars[0], uniq(confFields(s.Cond, "newConf"))})
+				// the fields compared in the condition; the body must hand exactly these to the running component:
+				//   p.<comp>.Reload…(newConf.<F>)
+				fields := uniq(confFields(s.Cond, "newConf"))
+				rs := reloadStmt{closeVar: closeVars[0]}
+				for _, bs := range s.Body.List {
+					es, ok := bs.(*ast.ExprStmt)
+					if !ok {
+						continue
+					}
+					call, ok := es.X.(*ast.CallExpr)
+					if !ok || len(call.Args) != 1 {
+						continue
+					}
+					fn, ok := call.Fun.(*ast.SelectorExpr)
+					if !ok || !strings.HasPrefix(fn.Sel.Name, "Reload") {
+						continue
+					}
+					recv := coreFields(fn.X)
+					arg, okA := selOf(call.Args[0], "newConf")
+					if len(recv) != 1 || !okA {
+						failf("closeResources: in-place reload under !%s outside the fragment", closeVars[0])
+						continue
+					}
+					rs.comp = recv[0]
+					rs.method = fn.Sel.Name
+					for _, f := range fields {
+						if f == arg {
+							rs.fields = append(rs.fields, f)
+						}
+					}
+					if len(rs.fields) == 0 {
+						failf("closeResources: %s.%s is handed newConf.%s but the condition compares %v", recv[0], fn.Sel.Name, arg, fields)
+					}
+				}
+				if rs.comp == "" {
+					failf("closeResources: the statement under !%s (comparing %v) pushes nothing into the running component", closeVars[0], fields)
+				} else {
+					reloads = append(reloads, rs)
+				}
 			} else {
 				var comps []string
 				for _, c := range conds {
@@ -377,7 +544,12 @@ func main() {
 		r.CloseRefs = cr.CloseRefs
 		for _, rl := range reloads {
 			if rl.closeVar == cv {
+				if rl.comp != comp {
+					failf("closeResources: under !%s the reload is pushed into %s, not into %s", cv, rl.comp, comp)
+					continue
+				}
 				r.Reload = append(r.Reload, rl.fields...)
+				r.ReloadVia = append(r.ReloadVia, rl.method)
 			}
 		}
 		r.Reload = uniq(r.Reload)
@@ -436,21 +608,23 @@ func main() {
 		for _, cv := range r.CloseRefs {
 			closeRefs = append(closeRefs, closeToComp[cv])
 		}
-		fmt.Fprintf(&sb, "  (* core.go:%d *)\n  {| comp := %q; guard := %s;\n     uses := %s;\n     refs := %s;\n     cmps := [%s];\n     close_refs := %s;\n     reloads := %s |}",
-			r.Line, r.Comp, q(r.Guard), q(r.Uses), q(r.Refs), strings.Join(cmps, "; "), q(closeRefs), q(r.Reload))
+		fmt.Fprintf(&sb, "  (* core.go:%d *)\n  {| comp := %q; guard := %s;\n     uses := %s;\n     refs := %s;\n     cmps := [%s];\n     close_refs := %s;\n     reloads := %s;\n     gexp := %s;\n     bound := %s;\n     refbound := %s |}",
+			r.Line, r.Comp, q(r.Guard), q(r.Uses), q(r.Refs), strings.Join(cmps, "; "), q(closeRefs), q(r.Reload), r.GExp,
+			q(bindFields(r.Binds)), q(bindFields(r.RefBinds)))
 		if i < len(table)-1 {
 			sb.WriteString(";")
 		}
 		sb.WriteString("\n")
 	}
 	sb.WriteString("].\n\n")
+	fmt.Fprintf(&sb, "(* the order in which createResources constructs the components *)\nDefinition create_order : list string := %s.\n", q(order))
 	fmt.Fprintf(&sb, "Definition pointer_fields : list string := %s.\n", q(pointerFields))
 	fmt.Fprintf(&sb, "Definition conf_field_count : nat := %d.\n", len(allFields))
 	if err := os.WriteFile(outPath, []byte(sb.String()), 0o644); err != nil {
 		fmt.Fprintln(os.Stderr, err)
 		os.Exit(2)
 	}
-	nb, _ := json.MarshalIndent(map[string]any{"table": table, "pointer_fields": pointerFields, "failures": fails, "conf_fields": allFields}, "", " ")
+	nb, _ := json.MarshalIndent(map[string]any{"table": table, "create_order": order, "pointer_fields": pointerFields, "failures": fails, "conf_fields": allFields}, "", " ")
 	os.WriteFile(notesPath, nb, 0o644)
 	if len(fails) > 0 {
 		fmt.Fprintln(os.Stderr, "translation failures:\n"+strings.Join(fails, "\n"))
